@@ -318,7 +318,17 @@ def search_C14(pid, budget):
     return n
 
 
-SEARCH = {"C12": search_C12, "C13": search_C13, "C14": search_C14}
+def search_C12_all(pid, budget):
+    n = search_C12(pid, budget)
+    return n + search_C14(pid, budget)      # stop_all / stop paths also deliver every detection exactly once, in order
+
+
+def search_C13_all(pid, budget):
+    n = search_C13(pid, budget)
+    return n + search_C14(pid, budget)      # saved stream == blocks the tokenizer read, also when a stop arrives
+
+
+SEARCH = {"C12": search_C12_all, "C13": search_C13_all, "C14": search_C14}
 
 
 def run(pid, budget):
